@@ -207,12 +207,27 @@ class Input(IInput, Loggable):
                     f"Can't accept incoming data info. Failed entries:\n{fail_info}"
                 )
 
+        in_grid = src_info.grid if info.grid is None else info.grid
+        with ErrorLogger(self.logger):
+            self._transform = src_info.grid.get_transform_to(in_grid)
+
+        # a mask is laid out like the data of its own grid: keep the input's
+        # own (accepted) mask, otherwise bring the source's mask to the
+        # layout of the input's grid
+        mask = src_info.mask
+        if tools.mask_specified(info.mask):
+            mask = info.mask
+        elif (
+            self._transform is not None
+            and tools.mask_specified(mask)
+            and mask is not np.ma.nomask
+        ):
+            mask = self._transform(mask)
+
         self._input_info = src_info.copy_with(
-            use_none=False, time=info.time, grid=info.grid, **info.meta
+            use_none=False, time=info.time, grid=info.grid, mask=mask, **info.meta
         )
         self._in_info_exchanged = True
-        with ErrorLogger(self.logger):
-            self._transform = src_info.grid.get_transform_to(self._input_info.grid)
 
         # pylint: disable-next=fixme
         # TODO: check if this is correct (was src_info before)
